@@ -404,6 +404,17 @@ func checkC08(c *Ctx) *core.Result {
 			if !ok {
 				continue
 			}
+			// s.fingerprint == "" / != ""
+			if cs, isStr := ssax.ConstString(cb.Y); isStr && cs == "" && a.loadsField(cb.X, "sql.state.fingerprint") {
+				if (cb.Op == token.EQL && !f.True) || (cb.Op == token.NEQ && f.True) {
+					nonEmpty = true
+				}
+			}
+			if cs, isStr := ssax.ConstString(cb.X); isStr && cs == "" && a.loadsField(cb.Y, "sql.state.fingerprint") {
+				if (cb.Op == token.EQL && !f.True) || (cb.Op == token.NEQ && f.True) {
+					nonEmpty = true
+				}
+			}
 			if isLenOfField(a, cb.X, "sql.state.fingerprint") {
 				k, okk := ssax.ConstInt(cb.Y)
 				if okk && ((cb.Op == token.LSS && k == 1 && !f.True) || (cb.Op == token.LEQ && k == 0 && !f.True) || (cb.Op == token.EQL && k == 0 && !f.True) ||
